@@ -41,6 +41,7 @@ def minimums(tier):
     m["ud.flavor.unknown-id.plugins"] = 500
     m["cli.runs"] = 50
     m["cli.mode_runs"] = 200
+    m["pels.with_128_or_more_sections"] = 16
     m["cli.mode_runs_with_dominated_options"] = 130
     m["embedded-in-larger-stream"] = 500
     m["cli.nonascii_values_checked"] = 50
@@ -88,6 +89,21 @@ def run(spec, ctx):
                         c = "O"
                         s = gen.gen_user_section(rng, u, c, ext, fl, True, plugins)
                         one([s, gen.gen_user_section(rng, u, c, False, "fx_ok", True, plugins)], c, plugins)
+        # logs with very many sections (the count is one byte: up to 255 including the two headers)
+        for total in (127, 128, 129, 200, 255):
+            for plugins in (True, False):
+                c = rng.choice("OBH")
+                secs = []
+                for k in range(total - 3):
+                    r = k % 3
+                    if r == 0:
+                        secs.append(pm.sec_ud(rng, u, c, 0x3456, rng.randrange(256), rng.randrange(256), pm.gen_payload(rng, u, rng.choice([1, 5, 16]))))
+                    elif r == 1:
+                        secs.append(pm.sec_ud(rng, u, c, 0x0100, 7, 7, pm.gen_payload(rng, u, rng.choice([4, 12])), ext_creator="Q"))
+                    else:
+                        secs.append(pm.sec_generic(rng, u, rng.choice([b"ZZ", b"DH"]), pm.gen_payload(rng, u, 8)))
+                ctx.count("pels.with_128_or_more_sections" if total >= 128 else "pels.with_127_sections")
+                one(secs, c, plugins)
         # all byte values, one per section, at the printable boundaries of the dump's text column
         for b in range(256):
             one([pm.sec_ud(rng, u, "M", 0x0001, 0, 0, bytes([b]) * rng.choice([1, 16, 17]))], "M")
